@@ -481,7 +481,9 @@ def replay_generic_known(ctx, prop):
     and reports a violation when it misbehaves in a DIFFERENT way."""
     for k in load_known():
         w = k.get("witness", {})
-        if k["property"] != prop or k["status"] != "known" or "files" not in w or "observed" not in w:
+        if k["property"] != prop or k["status"] not in ("known", "fixed") or "files" not in w or "observed" not in w:
+            continue
+        if k["status"] == "fixed" and "expected_rows" not in w:
             continue
         base = os.path.join(ctx.scratch, "known_" + k["id"])
         os.makedirs(base)
@@ -492,6 +494,16 @@ def replay_generic_known(ctx, prop):
             with open(os.path.join(base, rel), "wb") as f:
                 f.write(b"x" * size)
         obs = w["observed"]
+        if k["status"] == "fixed":
+            # a repaired defect suppresses nothing: its witness must now give the expected rows, every time
+            for _ in range(8 if obs.get("varies") else 1):
+                r = ctx.impl.rows(w["argv"], cwd=base)
+                rows = [v.decode("utf-8", "replace") for v in r["values"]]
+                if r["status"] != 0 or rows != w["expected_rows"]:
+                    ctx.violation("impl-violates-spec", "the repaired defect %s (%s) is back: status %s, rows %s, expected %s" % (k["id"], k["what"], r["status"], rows[:12], w["expected_rows"][:12]),
+                                  input={"files": w["files"], "argv": w["argv"]})
+                    break
+            continue
         if obs.get("varies"):
             # the recorded misbehaviour is an output that changes from run to run (hash seed): several runs
             outcomes = set()
